@@ -71,37 +71,46 @@ func r03_1(c *Ctx, r *Report) {
 	r.check(len(bad) == 0 && len(conv) == 7, rule, "convert(JIE_QI_IN_USE[i]) == JIE_QI[(i+23)%24]", c.pos(c.tables.pos("calendar", "JIE_QI_IN_USE")), fmt.Sprintf("alias map %v; deviations %v", conv, bad))
 	dups, _ := distinctNonEmpty(inUse)
 	r.check(len(dups) == 0, rule, "JIE_QI_IN_USE keys are distinct", c.pos(c.tables.pos("calendar", "JIE_QI_IN_USE")), fmt.Sprintf("duplicates %v (a duplicate key overwrites a term in the map)", dups))
-	// SetName parity
-	if fn := c.Fn(r, rule, "calendar.(*JieQi).SetName"); fn != nil {
-		okk := false
-		for _, b := range fn.Blocks {
-			iff, ok := b.Instrs[len(b.Instrs)-1].(*ssa.If)
-			if !ok {
-				continue
-			}
-			bo, ok := iff.Cond.(*ssa.BinOp)
-			if !ok || bo.Op != token.EQL {
-				continue
-			}
-			rem, ok := bo.X.(*ssa.BinOp)
-			if k, isK := constInt(bo.Y); ok && isK && k == 0 && rem.Op == token.REM {
-				if m, ok := constInt(rem.Y); ok && m == 2 {
-					// true branch sets qi
-					for _, ins := range b.Succs[0].Instrs {
-						if st, ok := ins.(*ssa.Store); ok {
-							if fa, ok := st.Addr.(*ssa.FieldAddr); ok && fieldKeyOf(fa) == "JieQi.qi" {
-								okk = true
-							}
-						}
+	// SetName: followed for every name of JIE_QI and one outside it; the flags it stores
+	if fn := c.Fn(r, rule, "calendar.(*JieQi).SetName"); fn != nil && len(fn.Params) == 2 {
+		var sbad []string
+		n := 0
+		for i, name := range append(append([]string{}, jq...), "元旦") {
+			leaf := func(fr *evalFrame, v ssa.Value) (interface{}, bool) {
+				if p, ok := v.(*ssa.Parameter); ok && fr.parent == nil {
+					switch p {
+					case fn.Params[0]:
+						return absPtr{"term object", false}, true
+					case fn.Params[1]:
+						return name, true
 					}
 				}
+				return nil, false
+			}
+			ev := &evaluator{leaf: leaf, inline: inlineLibrary, counted: 64}
+			flags := map[string]interface{}{"JieQi.jie": false, "JieQi.qi": false} // a new object starts with both unset
+			ev.onStore = func(fr *evalFrame, st *ssa.Store, v interface{}, ok bool) {
+				if fa, isF := st.Addr.(*ssa.FieldAddr); isF && structName(fa.X.Type()) == "JieQi" {
+					if !ok {
+						v = "?"
+					}
+					flags[fieldKeyOf(fa)] = v
+				}
+			}
+			_, outcome := ev.run(fn, nil, nil, nil, nil)
+			n++
+			wantQi, wantJie := i < len(jq) && i%2 == 0, i < len(jq) && i%2 == 1
+			switch {
+			case outcome != "return":
+				sbad = append(sbad, fmt.Sprintf("name %s: not followed (%s %s)", name, outcome, ev.fail))
+			case flags["JieQi.name"] != interface{}(name) || flags["JieQi.qi"] != interface{}(wantQi) || flags["JieQi.jie"] != interface{}(wantJie):
+				sbad = append(sbad, fmt.Sprintf("name %s (position %d): name %v, qi %v, jie %v; stated qi %v, jie %v", name, i, flags["JieQi.name"], flags["JieQi.qi"], flags["JieQi.jie"], wantQi, wantJie))
 			}
 		}
-		r.check(okk, rule, "calendar.(*JieQi).SetName: even positions of JIE_QI are qi", c.fnPos(fn), "JIE_QI starts with 冬至 (a qi); JIE_QI_IN_USE starts with DA_XUE (a jie), so its even positions are jie")
+		r.check(len(sbad) == 0 && n == len(jq)+1, rule, "calendar.(*JieQi).SetName: even positions of JIE_QI are qi, odd ones jie", c.fnPos(fn), fmt.Sprintf("%d names (JIE_QI starts with 冬至, a qi; JIE_QI_IN_USE starts with DA_XUE, a jie, so its even positions are jie); deviations: %v", n, headList(sbad, 3)))
 	}
 }
 
-// parityOf: 0 even, 1 odd, -1 unknown.
 func parityOf(v ssa.Value, depth int) int { return parityIn(v, nil, depth) }
 
 // counterIn finds the loop counter (a phi with an edge phi+const) inside an index expression.
@@ -598,55 +607,115 @@ func r03_4(c *Ctx, r *Report) {
 
 func r03_5(c *Ctx, r *Report) {
 	const rule = "R03.5"
-	r.rule(rule, "Day-level lookups compare like with like. GetJieQi, GetJie and GetQi name a term for the day iff the term's civil year, month and day all equal the object's own civil year, month and day (each comparison pairs the same component of the term Solar and of lunar.solar), and the name goes through convertJieQi.")
-	for _, name := range []string{"calendar.(*Lunar).GetJieQi", "calendar.(*Lunar).GetJie", "calendar.(*Lunar).GetQi"} {
-		fn := c.Fn(r, rule, name)
-		if fn == nil {
+	r.rule(rule, "Day-level lookups name the term whose civil date is the object's own. GetJieQi, GetJie and GetQi are followed by the evaluator (their scans as tables over the iteration number; the term table and the list of term keys supplied by the checker — list model —, dates as (year, month, day) records) for each of the 31 keys in turn being the one whose date is the object's own civil date, every key before it carrying the same month and day in the year before and every key after it the next day — and with no key on the date: the result is the canonical name of that key (JIE_QI[(i+23) % 24], R03.1) when the key is of the kind the function asks for (GetJie: even positions of JIE_QI_IN_USE, GetQi: odd ones, GetJieQi: all), and the empty name otherwise. A comparison that drops the year names the neighbouring year's copy of a term.")
+	keys := c.tabStrs(r, rule, "calendar", "JIE_QI_IN_USE")
+	names := c.tabStrs(r, rule, "calendar", "JIE_QI")
+	if len(keys) != 31 || len(names) != 24 {
+		return
+	}
+	own := absDate{2020, 2, 4}
+	for _, u := range []struct {
+		name string
+		kind int // 0: jie (even positions), 1: qi (odd), 2: both
+	}{{"calendar.(*Lunar).GetJieQi", 2}, {"calendar.(*Lunar).GetJie", 0}, {"calendar.(*Lunar).GetQi", 1}} {
+		fn := c.Fn(r, rule, u.name)
+		if fn == nil || len(fn.Params) != 1 {
 			continue
 		}
-		comps := map[string]bool{}
 		var bad []string
-		var blocks []*ssa.BasicBlock
-		for _, f := range withHelpers(c, fn) {
-			blocks = append(blocks, f.Blocks...)
+		n := 0
+		for hit := -1; hit < len(keys) && len(bad) < 3; hit++ {
+			dateOf := func(key string) (absDate, bool) {
+				for j, k := range keys {
+					if k != key {
+						continue
+					}
+					switch {
+					case j == hit:
+						return own, true
+					case j < hit:
+						return absDate{own.y - 1, own.m, own.d}, true
+					}
+					return absDate{own.y, own.m, own.d + 1}, true
+				}
+				return absDate{}, false
+			}
+			var lm *listModel
+			var leaf leafX
+			leaf = func(fr *evalFrame, v ssa.Value) (interface{}, bool) {
+				if p, ok := v.(*ssa.Parameter); ok && fr.parent == nil && p == fn.Params[0] {
+					return absPtr{"lunar", false}, true
+				}
+				if x, ok := lm.leaf(c, fr, v); ok {
+					return x, true
+				}
+				if lk, ok := v.(*ssa.Lookup); ok && !lk.CommaOk && structName(lk.Type()) == "Solar" {
+					if kv, ok := evalWith(fr, lk.Index, leaf); ok {
+						if key, isS := kv.(string); isS {
+							if d, ok := dateOf(key); ok {
+								return d, true
+							}
+						}
+					}
+					return nil, false
+				}
+				if rc, f, ok := getterField(c, v); ok {
+					o, okO := evalWith(fr, rc, leaf)
+					if !okO {
+						return nil, false
+					}
+					if p, isP := o.(absPtr); isP && p.tag == "lunar" {
+						switch f {
+						case "Lunar.solar":
+							return own, true
+						case "Lunar.jieQiList":
+							return absPtr{"list@keys", false}, true
+						case "Lunar.jieQi":
+							return absPtr{"term table", false}, true
+						}
+					}
+					if d, isD := o.(absDate); isD {
+						switch f {
+						case "Solar.year":
+							return d.y, true
+						case "Solar.month":
+							return d.m, true
+						case "Solar.day":
+							return d.d, true
+						}
+					}
+				}
+				return nil, false
+			}
+			ev := &evaluator{leaf: leaf, inline: inlineLibrary, counted: 64}
+			lm = newListModel(ev)
+			var all []interface{}
+			for _, k := range keys {
+				all = append(all, k)
+			}
+			lm.fill("list@keys", all...)
+			ev.visit = lm.visit
+			res, outcome := ev.run(fn, nil, nil, nil, nil)
+			n++
+			want := ""
+			if hit >= 0 && (u.kind == 2 || hit%2 == u.kind) {
+				want = names[(hit+23)%24]
+			}
+			got := outcome + " " + ev.fail
+			if outcome == "return" && len(res) == 1 {
+				got = fmt.Sprint(res[0])
+			}
+			if got != want {
+				what := "no key on the date"
+				if hit >= 0 {
+					what = fmt.Sprintf("key %d (%s) on the date", hit, keys[hit])
+				}
+				bad = append(bad, fmt.Sprintf("%s: %q, stated %q", what, got, want))
+			}
 		}
-		for _, b := range blocks {
-			iff, ok := b.Instrs[len(b.Instrs)-1].(*ssa.If)
-			if !ok {
-				continue
-			}
-			bo, ok := iff.Cond.(*ssa.BinOp)
-			if !ok || bo.Op != token.EQL || !isIntType(bo.X.Type()) {
-				continue
-			}
-			r1, f1, ok1 := getterField(c, bo.X)
-			r2, f2, ok2 := getterField(c, bo.Y)
-			if !ok1 || !ok2 {
-				continue
-			}
-			side := func(rv ssa.Value) string {
-				if _, f, ok := getterField(c, rv); ok && f == "Lunar.solar" {
-					return "own"
-				}
-				if _, ok := rv.(*ssa.Lookup); ok {
-					return "term"
-				}
-				if _, ok := rv.(*ssa.Parameter); ok {
-					return "lunar"
-				}
-				return "?"
-			}
-			s1, s2 := side(r1), side(r2)
-			if f1 != f2 || !strings.HasPrefix(f1, "Solar.") || !((s1 == "term" && s2 == "own") || (s1 == "own" && s2 == "term")) {
-				bad = append(bad, fmt.Sprintf("%s(%s) == %s(%s)", f1, s1, f2, s2))
-				continue
-			}
-			comps[f1] = true
-		}
-		_, conv := c.eff.Of(fn).Calls["calendar.convertJieQi"]
-		r.check(len(bad) == 0 && comps["Solar.year"] && comps["Solar.month"] && comps["Solar.day"] && conv, rule, name+" matches year, month and day of the civil date", c.fnPos(fn),
-			fmt.Sprintf("components compared %v; mismatched comparisons %v; through convertJieQi: %v", sortedKeys(comps), bad, conv))
+		r.check(len(bad) == 0 && n == len(keys)+1, rule, u.name+" names the term of the object's own civil date", c.fnPos(fn), fmt.Sprintf("%d tables; deviations: %v", n, headList(bad, 3)))
 	}
+	r.floor(rule, 3)
 }
 
 func r03_6(c *Ctx, r *Report) {
@@ -1317,5 +1386,5 @@ func truncate(s string, n int) string {
 	if len(s) <= n {
 		return s
 	}
-	return s[:n] + "…"
+	return head(s, n) + "…"
 }
